@@ -262,6 +262,14 @@ def inline_locals(func, keep=()):
         targets = []
         if isinstance(n, ast.Assign):
             for t in n.targets:
+                if isinstance(t, (ast.Tuple, ast.List)) and isinstance(n.value, (ast.Tuple, ast.List)) and len(t.elts) == len(n.value.elts) \
+                        and len(n.targets) == 1 and all(isinstance(e, ast.Name) for e in t.elts):
+                    # a, b = x, y  (valid to inline when no right-hand side mentions a left-hand name)
+                    lhs = {e.id for e in t.elts}
+                    rhs_names = {x.id for v in n.value.elts for x in ast.walk(v) if isinstance(x, ast.Name)}
+                    for e, v in zip(t.elts, n.value.elts):
+                        targets.append((e.id, v if not (lhs & rhs_names) else None))
+                    continue
                 for x in ast.walk(t):
                     if isinstance(x, ast.Name):
                         targets.append((x.id, n.value if isinstance(t, ast.Name) and len(n.targets) == 1 else None))
@@ -353,13 +361,13 @@ def truth_table(tree, atoms):
 
 
 # ------------------------------------------------------------------------------------------------
-_FLIP = {"Lt": "Gt", "Gt": "Lt", "LtE": "GtE", "GtE": "LtE", "Eq": "Eq", "NotEq": "NotEq"}
+_FLIP = {"Lt": "Gt", "Gt": "Lt", "LtE": "GtE", "GtE": "LtE", "Eq": "Eq", "NotEq": "NotEq", "Is": "Is", "IsNot": "IsNot", "In": "In", "NotIn": "NotIn"}
 
 
 def compare_atom(canon, left, op, right):
     """canonical atom text for a binary comparison, orientation-normalised (a < b == b > a)"""
     l, r, o = canon.ptext(left), canon.ptext(right), type(op).__name__
-    if o in ("Gt", "GtE") or (o in ("Eq", "NotEq") and l > r):
+    if o in ("Gt", "GtE") or (o in ("Eq", "NotEq", "Is") and l > r and o != "Is"):
         l, r, o = r, l, _FLIP[o]
     return "%s %s %s" % (l, o, r)
 
@@ -415,6 +423,10 @@ class BoolTracker:
         return ("atom", k)
 
     def _cmp_atom(self, left, op, right):
+        neg = {ast.IsNot: ast.Is, ast.NotEq: ast.Eq, ast.NotIn: ast.In}.get(type(op))
+        if neg is not None:
+            # exact negations (also under NaN): a != b == not (a == b), a is not b == not (a is b)
+            return ("not", [self._cmp_atom(left, neg(), right)])
         k = compare_atom(self.canon, left, op, right) + self._ver(ast.Tuple(elts=[left, right], ctx=ast.Load()))
         self.leaves.setdefault(k, (left, op, right))
         return ("atom", k)
@@ -473,3 +485,66 @@ def tree_atoms(tree, out=None):
         for t in tree[1]:
             tree_atoms(t, out)
     return out
+
+
+# ------------------------------------------------------------------------------------------------
+def path_condition(node, root, tracker=None):
+    """Boolean tree of the condition under which ``node`` executes inside ``root``: the conjunction, over the enclosing if statements
+    and conditional expressions, of the test (node in the body) or its negation (node in the else part).  Loops and try blocks do not
+    contribute.  Use with ``equivalent`` to compare guards whatever their syntactic arrangement (swapped branches, De Morgan, elif)."""
+    bt = tracker or BoolTracker()
+    conj = []
+    child = node
+    p = getattr(node, "_parent", None)
+    while p is not None and child is not root:
+        if isinstance(p, ast.If):
+            if any(child is b for b in p.body):
+                conj.append(bt.tree(p.test))
+            elif any(child is b for b in p.orelse):
+                conj.append(("not", [bt.tree(p.test)]))
+        elif isinstance(p, ast.IfExp):
+            if child is p.body:
+                conj.append(bt.tree(p.test))
+            elif child is p.orelse:
+                conj.append(("not", [bt.tree(p.test)]))
+        elif isinstance(p, ast.BoolOp) and isinstance(p.op, ast.And):
+            idx = [i for i, v in enumerate(p.values) if v is child]
+            if idx:
+                conj += [bt.tree(v) for v in p.values[:idx[0]]]
+        child = p
+        p = getattr(p, "_parent", None)
+    if not conj:
+        return ("const", True), bt
+    return ("and", list(reversed(conj))), bt
+
+
+def equivalent(tree, expected, atoms=None, constraints=None, strip_versions=True):
+    """Are two boolean trees the same function?  ``expected`` is a python callable on an assignment dict or a tree.
+    ``constraints(assignment)`` may exclude impossible assignments (e.g. is_implicit == not is_explicit).
+    Returns (ok, counterexample)."""
+    def strip(t):
+        if t[0] == "atom":
+            return ("atom", t[1].split("@")[0]) if strip_versions else t
+        if t[0] == "const":
+            return t
+        return (t[0], [strip(x) for x in t[1]])
+    tree = strip(tree)
+    at = list(atoms) if atoms is not None else tree_atoms(tree)
+    for a in tree_atoms(tree):
+        if a not in at:
+            at.append(a)
+    if not callable(expected):
+        expected = strip(expected)
+        for a in tree_atoms(expected):
+            if a not in at:
+                at.append(a)
+    if len(at) > 14:
+        raise AnalysisError("too many atoms for a truth table: %s" % at)
+    for vals in itertools.product((False, True), repeat=len(at)):
+        asg = dict(zip(at, vals))
+        if constraints is not None and not constraints(asg):
+            continue
+        want = expected(asg) if callable(expected) else eval_bool(expected, asg)
+        if eval_bool(tree, asg) != bool(want):
+            return False, asg
+    return True, None
